@@ -6,6 +6,8 @@ import (
 	"strconv"
 	"strings"
 
+	"github.com/DavidGamba/go-getoptions/text"
+
 	"verif/fw"
 )
 
@@ -153,7 +155,11 @@ type helpEntry struct {
 	text    string
 }
 
-var helpHeaders = map[string]bool{"NAME:": true, "SYNOPSIS:": true, "COMMANDS:": true, "ARGUMENTS:": true, "REQUIRED PARAMETERS:": true, "OPTIONS:": true}
+// section headers as exported by the library's text package (a renamed header is not a defect)
+var helpHeaders = map[string]string{
+	text.HelpNameHeader + ":": "NAME", text.HelpSynopsisHeader + ":": "SYNOPSIS", text.HelpCommandsHeader + ":": "COMMANDS",
+	text.HelpArgumentsHeader + ":": "ARGUMENTS", text.HelpRequiredOptionsHeader + ":": "REQUIRED PARAMETERS", text.HelpOptionsHeader + ":": "OPTIONS",
+}
 
 // parseHelp - sections and entries (an entry starts at a line with exactly one indentation step).
 func parseHelp(text string) (sections map[string]string, entries []helpEntry) {
@@ -167,9 +173,9 @@ func parseHelp(text string) (sections map[string]string, entries []helpEntry) {
 		}
 	}
 	for _, line := range strings.Split(text, "\n") {
-		if helpHeaders[line] {
+		if h, ok := helpHeaders[line]; ok {
 			flush()
-			cur = strings.TrimSuffix(line, ":")
+			cur = h
 			continue
 		}
 		sections[cur] += line + "\n"
